@@ -41,6 +41,7 @@ type c20bCase struct {
 	Cap      int       `json:"cap"`
 	Bs       int       `json:"batch"`
 	Old      []int     `json:"old"`
+	Prior    []int     `json:"prior_interrupted_reset"` // keys fed to an earlier reset that Close interrupted (then reopened)
 	New      []int     `json:"new"`
 	Puts     []c20bPut `json:"puts"`
 	Trigger  string    `json:"trigger"` // kind of the reset's datastore call that launches the directed put ("" none)
@@ -59,6 +60,16 @@ func c20bGen(r *vfRand, pool []c20Key, i int) c20bCase {
 	c := c20bCase{Cap: 1 + r.Intn(3), Bs: 1 + r.Intn(4), Cancel: -1}
 	for _, k := range c20Pick(r, pool, 5) {
 		c.Old = append(c.Old, k.id)
+	}
+	if r.Chance(35) {
+		seenP := map[int]bool{}
+		for n := 2 + r.Intn(5); len(c.Prior) < n; {
+			k := r.Intn(len(pool))
+			if !seenP[k] {
+				seenP[k] = true
+				c.Prior = append(c.Prior, k)
+			}
+		}
 	}
 	nnew := 1 + r.Intn(8)
 	seen := map[int]bool{}
@@ -166,6 +177,30 @@ func c20bRun(t *testing.T, r *vfRand, pool []c20Key, ids map[string]int, c *c20b
 		}
 		if len(c.Old) > 0 {
 			if _, err := rks.Put(bg, hs(c.Old)...); err != nil {
+				t.Fatal(err)
+			}
+		}
+		if len(c.Prior) > 0 {
+			// an earlier reset that Close interrupted after some of its keys had reached the alternate slot; the
+			// keystore is then reopened on the same datastore (it must still hold the previous set) and used below
+			pctx := context.WithValue(bg, c20ActorKey{}, c20Actor{kind: "prior"})
+			pch := make(chan cid.Cid)
+			pdone := make(chan error, 1)
+			go func() { pdone <- rks.ResetCids(pctx, pch) }()
+			for _, k := range c.Prior {
+				pch <- cid.NewCidV1(cid.Raw, pool[k].h)
+			}
+			synctest.Wait()
+			if err := rks.Close(); err != nil {
+				t.Fatal(err)
+			}
+			if err := <-pdone; err == nil {
+				t.Fatal("c20b: the interrupted reset returned nil")
+			}
+			if rks, err = NewResettableKeystore(store, opts...); err != nil {
+				t.Fatal(err)
+			}
+			if _, err := rks.Size(bg); err != nil {
 				t.Fatal(err)
 			}
 		}
@@ -329,7 +364,10 @@ func TestVerifC20B(t *testing.T) {
 		vfBeat(map[string]any{"case": 100000 + i, "seed": seed, "kind": "bounded-buffer", "cap": c.Cap, "trigger": c.Trigger})
 		c20bRun(t, r, pool, ids, &c)
 		cs.Count("bounded-buffer-cases", 1)
-		sig := fmt.Sprintf("cap%d|ok%v|trig:%s|parked%v|cancel%v|puts%d", c.Cap, c.ResetOk, c.Trigger, c.Parked, c.Cancel >= 0, len(c.Puts))
+		sig := fmt.Sprintf("cap%d|ok%v|trig:%s|parked%v|cancel%v|puts%d|prior%v", c.Cap, c.ResetOk, c.Trigger, c.Parked, c.Cancel >= 0, len(c.Puts), len(c.Prior) > 0)
+		if len(c.Prior) > 0 {
+			cs.Count("after-an-interrupted-reset-and-reopen", 1)
+		}
 		if c.Parked {
 			cs.Count("put-waited-for-room", 1)
 		}
